@@ -96,6 +96,18 @@ def is_fresh(ctx: Ctx, f: FunctionInfo, e: Optional[ast.AST], at: int, depth: in
                 if dn.endswith("uuid4"):
                     return True
                 cal = ctx.prog.resolve_call(sub, f)
+                if cal.kind == "ctor" and cal.cls is not None and getattr(cal.cls, "is_dataclass", False):
+                    # a record whose field is drawn per INSTANCE: `token: str = field(default_factory=lambda: uuid4().hex[:8])`,
+                    # not overridden by this construction (a plain `= uuid4()` default is evaluated once, at import)
+                    given = {k.arg for k in sub.keywords if k.arg}
+                    order = [st.target.id for st in cal.cls.node.body if isinstance(st, ast.AnnAssign) and isinstance(st.target, ast.Name)]
+                    given |= set(order[:len(sub.args)])
+                    for st in cal.cls.node.body:
+                        if isinstance(st, ast.AnnAssign) and isinstance(st.target, ast.Name) and st.target.id not in given \
+                                and isinstance(st.value, ast.Call) and (dotted(st.value.func) or "").split(".")[-1] == "field":
+                            fac = next((k.value for k in st.value.keywords if k.arg == "default_factory"), None)
+                            if fac is not None and any(isinstance(y, ast.Call) and (dotted(y.func) or "").endswith("uuid4") for y in ast.walk(fac)):
+                                return True
                 if cal.kind == "func" and cal.funcs and all(returns_fresh(ctx, t, depth + 1) for t in cal.funcs):
                     return True
                 if cal.kind == "func" and cal.funcs and depth < 10:
